@@ -19,6 +19,7 @@ def sh(cmd, cwd=None, timeout=1800):
 
 def main():
     pid, name, patch, demo, note = sys.argv[1:6]
+    patch, demo = os.path.abspath(patch), os.path.abspath(demo)
     extra = sys.argv[6:]
     out = f"/verif/seeded/{name}"
     os.makedirs(out, exist_ok=True)
@@ -71,10 +72,18 @@ def main():
 
 if __name__ == "__main__":
     pid, name, patch, demo, note = sys.argv[1:6]
-    meta = main()
     out = f"/verif/seeded/{name}"
-    shutil.copy(patch, out + "/patch.diff")
-    shutil.copy(demo, out + "/demo_test.go")
+    old = json.load(open(out + "/meta.json")) if os.path.exists(out + "/meta.json") else None
+    meta = main()
+    if old:
+        # keep what earlier versions of the checks said about this change
+        meta["history"] = old.get("history", []) + [{"detected": old.get("detected"), "ran": [
+            {"check": r["check"], "verdict": r["verdict"][:160]} for r in old.get("ran", [])]}]
+        if not meta.get("note"):
+            meta["note"] = old.get("note", "")
+    for src, dst in ((patch, out + "/patch.diff"), (demo, out + "/demo_test.go")):
+        if os.path.abspath(src) != os.path.abspath(dst):
+            shutil.copy(src, dst)
     json.dump(meta, open(out + "/meta.json", "w"), indent=1)
     print(json.dumps({k: meta.get(k) for k in ("name", "suite_passes_with_change", "demo_fails_with_change", "demo_passes_without_change", "detected", "detected_with_witness")}))
     for r in meta.get("ran", []):
